@@ -192,6 +192,8 @@ fn linearizable(h: &[QRec], init: &[u64]) -> bool {
 }
 
 pub fn exec_c17(_prop: &str, v: &Value) -> Report {
+    // freed queue nodes / list elements keep a poison pattern and are not reused within the case
+    crate::QUARANTINE.store(true, std::sync::atomic::Ordering::SeqCst);
     let case: QCase = serde_json::from_value(v.clone()).expect("bad QCase");
     let n = case.threads.len().max(1);
     let q: &'static VQueue<Tok> = Box::leak(Box::new(VQueue::new()));
@@ -451,6 +453,8 @@ fn list_event(kind: u32, addr: usize, _aux: usize) {
 }
 
 pub fn exec_c18(prop: &str, v: &Value) -> Report {
+    // freed queue nodes / list elements keep a poison pattern and are not reused within the case
+    crate::QUARANTINE.store(true, std::sync::atomic::Ordering::SeqCst);
     if v.get("align").is_some() {
         // registry-churn family: the real participant registry under thread exits
         return crate::ebrworld::exec(prop, v);
